@@ -9,7 +9,7 @@
    every generated case by the executable checkers check_C07_*. *)
 From Coq Require Import List Bool ZArith Lia.
 Import ListNotations.
-From Rosed Require Import Base.Res Base.Str Gem.Segment Gem.GString Model.Manip Model.Table Model.Tb Proofs.SeamP Proofs.C13P Proofs.C07P Proofs.C07Q Proofs.C06R.
+From Rosed Require Import Base.Res Base.Str Gem.Segment Gem.GString Model.Manip Model.Table Model.Tb Proofs.SeamP Proofs.C13P Proofs.C07P Proofs.C07Q Proofs.C06R Base.Utf8 Model.Options Model.Editor Model.Ops Proofs.OpsMapP.
 Open Scope Z_scope.
 
 (* after CollapseSpace no two U+0020 are adjacent, for every text and separator *)
@@ -65,3 +65,16 @@ Theorem C07_wrap_words : forall (C : Classifier) (K : ClassifierOk) (U : Upper) 
   exists pss, b_lines b = map ln pss /\ cov (concat pss) (wds (clusters ct) []).
 Proof. intros C K U. exact wrap_words. Qed.
 Print Assumptions C07_wrap_words.
+
+(* Indent outside paragraph mode: every line of the one line decomposition gets the prefix
+   (the indent string repeated level times) and nothing else changes; levels below 1 are no-ops *)
+Theorem C07_indent_lines : forall (C : Classifier) (U : Upper) level opts e ind,
+  1 <= level -> o_preserve (with_defaults opts) = false -> repeat_str (o_indent (with_defaults opts)) level = Ok ind ->
+  indent_opts level opts e =
+    Ok (with_text e (join (o_linesep (with_defaults opts)) (mapped_lines (fun l => ind ++ l) opts e))).
+Proof. intros C U. exact indent_opts_lines. Qed.
+Print Assumptions C07_indent_lines.
+
+Theorem C07_indent_nop : forall (C : Classifier) (U : Upper) level opts e, level < 1 -> indent_opts level opts e = Ok e.
+Proof. intros C U. exact indent_opts_nop. Qed.
+Print Assumptions C07_indent_nop.
